@@ -67,6 +67,7 @@ type workerCfg struct {
 	MaxViol   int             `json:"max_violations"`
 	ShrinkS   int             `json:"shrink_seconds"`
 	Isolate   bool            `json:"isolate,omitempty"`
+	WallS     int             `json:"wall_budget_seconds"`
 }
 
 type summary struct {
@@ -250,7 +251,11 @@ func runWorker(bin string, cfg workerCfg, timeout time.Duration) (*summary, erro
 	}
 	cmd := exec.Command("/bin/sh", "-c", "ulimit -v 12000000; exec \"$0\" -test.run '^TestWorker$' -test.timeout 0 -test.count 1", bin)
 	cmd.Dir = scratch
-	env := append(goEnv(), "VERIF_WORKER_CFG="+cfgPath)
+	// temporary files of the workers live and die with the scratch directory, also when a
+	// worker is killed or has to leave through os.Exit
+	wtmp := filepath.Join(filepath.Dir(cfg.OutFile), "tmp")
+	os.MkdirAll(wtmp, 0o755)
+	env := append(goEnv(), "VERIF_WORKER_CFG="+cfgPath, "TMPDIR="+wtmp)
 	if cfg.MaxProcs > 0 {
 		env = append(env, "GOMAXPROCS="+strconv.Itoa(cfg.MaxProcs))
 	}
@@ -530,6 +535,13 @@ func main() {
 	if tier == "thorough" {
 		timeout = 10 * time.Hour
 	}
+	// a batch is bounded in real time as well as in runs: a tree on which every run is
+	// slow (heavily instrumented hot loops) gets fewer runs, and the check says so,
+	// instead of running into the watchdog
+	wallBudget := 10 * 60
+	if tier == "thorough" {
+		wallBudget = 3 * 3600
+	}
 	sums := make([]*summary, nw)
 	errs := make([]error, nw)
 	var restarts atomic.Int64
@@ -538,7 +550,7 @@ func main() {
 		wg.Add(1)
 		go func(w int) {
 			defer wg.Done()
-			cfg := workerCfg{Property: prop, Mode: "explore", Tier: tier, VerifSeed: seed, Worker: w, NWorkers: nw, Runs: *runsFlag, Isolate: isolate,
+			cfg := workerCfg{Property: prop, Mode: "explore", Tier: tier, VerifSeed: seed, Worker: w, NWorkers: nw, Runs: *runsFlag, Isolate: isolate, WallS: wallBudget,
 				OutFile: filepath.Join(scratch, fmt.Sprintf("w%d.json", w)), ReplayDir: replayDir, Findings: openIDs, MaxProcs: procsCycle[w%3], MaxViol: 2, ShrinkS: 40}
 			sums[w], errs[w] = runWorker(bin, cfg, timeout)
 			if errs[w] != nil && !strings.Contains(errs[w].Error(), "watchdog") && !strings.Contains(errs[w].Error(), errCrossBubble) {
@@ -791,6 +803,9 @@ func main() {
 		fmt.Println(l)
 	}
 	fmt.Printf("simdrv: %d runs (%d non-trivial, %d distinct non-trivial cases, %d distinct event logs), %d scheduler steps, %.1fs wall\n", agg.Runs, agg.Nontrivial, distinct, len(scheds), agg.Steps, wall)
+	if n := agg.Counters["runs_not_executed_within_wall_clock_budget"]; n > 0 {
+		fmt.Printf("simdrv: note: the batch reached its wall-clock budget (%d s per worker): %d of the planned runs were not executed; runs on this tree are unusually slow\n", wallBudget, n)
+	}
 	if len(confirmed) > 0 {
 		for _, v := range confirmed {
 			fmt.Printf("VIOLATION property=%s replay=%s\n", prop, v)
